@@ -18,7 +18,7 @@ LEVEL_TEXT = ("PARTIAL. Proved in Coq for every program assignment and every tra
               "running transaction issued by a helper sharing the store clone = lock slot; execute; unlock, so the permit can be dropped "
               "while the slot mutex is held; the real drop handler awaits the mutex inside the detached task), every configuration and trace: "
               "C10_aborted_tx_is_rolled_back_before_permit_release, C10_next_begin_finds_empty_slot, C10_slot_no_panic, "
-              "C10_slot_rows_only_from_committed, C10_slot_progress; C10_slot_variant_try_lock_refuted is a regression lemma about the "
+              "C10_slot_rows_only_from_committed, C10_slot_progress, C10_slot_step_decreases; C10_slot_variant_try_lock_refuted is a regression lemma about the "
               "try_lock variant of the drop handler (not a finding). The theorems are about the permit protocol "
               "(semaphore, tx slot, drop handler, tx! macro); SQLite's own atomicity/isolation, tokio Semaphore/Mutex (FIFO hand-off) "
               "and sqlx 'dropped Transaction = rollback' are ASSUMED by the model. The model is tied to p2panda-store/src/sqlite.rs and "
